@@ -86,6 +86,7 @@ type input struct {
 	TCPAdds  []add        `json:"tcp_adds,omitempty"`    // config-tcp-service annotations (updater)
 	TCPDflt  *B           `json:"tcp_default,omitempty"` // config-tcp-service in the global ConfigMap
 	Global   map[string]B `json:"global,omitempty"`      // global-scope snippet keys
+	Written  bool         `json:"written,omitempty"`     // updater: also write the files and read the snippet block back
 	Services []svcObj     `json:"services,omitempty"`
 	Ingress  []ingObj     `json:"ingresses,omitempty"`
 }
@@ -112,6 +113,11 @@ func firstTok(line string) string {
 
 // haproxyWord: the first word as HAProxy cuts a configuration line (space and tab)
 func haproxyWord(line string) string {
+	// an unquoted CR ends the statement like LF does (parse_line of HAProxy stops at \n
+	// and \r): what follows it on the physical line is not read
+	if i := strings.IndexByte(line, '\r'); i >= 0 {
+		line = line[:i]
+	}
 	f := strings.FieldsFunc(line, func(r rune) bool { return r == ' ' || r == '\t' })
 	if len(f) == 0 {
 		return ""
@@ -171,7 +177,25 @@ func genLine(rng *rand.Rand) string {
 	if rng.Intn(6) == 0 {
 		return pick(rng, wsPool) + tok
 	}
-	return pick(rng, wsPool) + tok + pick(rng, sepPool) + pick(rng, restPool)
+	l := pick(rng, wsPool) + tok + pick(rng, sepPool) + pick(rng, restPool)
+	return l + genCRTail(rng)
+}
+
+// genCRTail: a lone CR inside the line followed by what would be a statement of its own if
+// the CR ended a line, or a CR at the end (CRLF files)
+func genCRTail(rng *rand.Rand) string {
+	switch rng.Intn(8) {
+	case 0:
+		return "\r" + pick(rng, []string{"", " ", "\t", "  "}) + pick(rng, tokPool) + pick(rng, sepPool) + pick(rng, restPool)
+	case 1:
+		return "\r"
+	}
+	return ""
+}
+
+// hintLines: where a first token could be looked for, by any reading of line ends
+func hintLines(v string) []string {
+	return strings.FieldsFunc(v, func(r rune) bool { return r == '\n' || r == '\r' })
 }
 
 func genSnippet(rng *rand.Rand) string {
@@ -246,21 +270,21 @@ func genUpdater(rng *rand.Rand) input {
 	for i := 0; i < n; i++ {
 		v := genValue(rng)
 		in.Adds = append(in.Adds, add{Path: rng.Intn(3), Value: v})
-		hint = append(hint, strings.Split(string(v), "\n")...)
+		hint = append(hint, hintLines(string(v))...)
 	}
 	if rng.Intn(4) == 0 {
 		in.Default = bp(string(genValue(rng)))
-		hint = append(hint, strings.Split(string(*in.Default), "\n")...)
+		hint = append(hint, hintLines(string(*in.Default))...)
 	}
 	if rng.Intn(3) == 0 {
 		for i := 0; i < rng.Intn(3); i++ {
 			v := genValue(rng)
 			in.TCPAdds = append(in.TCPAdds, add{Path: rng.Intn(2), Value: v})
-			hint = append(hint, strings.Split(string(v), "\n")...)
+			hint = append(hint, hintLines(string(v))...)
 		}
 		if rng.Intn(3) == 0 {
 			in.TCPDflt = bp(string(genValue(rng)))
-			hint = append(hint, strings.Split(string(*in.TCPDflt), "\n")...)
+			hint = append(hint, hintLines(string(*in.TCPDflt))...)
 		}
 	}
 	in.Global = map[string]B{}
@@ -268,10 +292,11 @@ func genUpdater(rng *rand.Rand) input {
 		if rng.Intn(3) == 0 {
 			v := genValue(rng)
 			in.Global[k] = v
-			hint = append(hint, strings.Split(string(v), "\n")...)
+			hint = append(hint, hintLines(string(v))...)
 		}
 	}
 	in.Keywords = genKeywords(rng, hint)
+	in.Written = len(in.Adds) > 0 && rng.Intn(2) == 0
 	return in
 }
 
@@ -281,7 +306,7 @@ func genMarked(rng *rand.Rand, tag string) string {
 	var lines []string
 	for i := 0; i < n; i++ {
 		ws := strings.ReplaceAll(pick(rng, wsPool), "\n", "")
-		l := ws + pick(rng, tokPool) + pick(rng, sepPool) + pick(rng, restPool) + fmt.Sprintf(" #%s_%d", tag, i)
+		l := ws + pick(rng, tokPool) + pick(rng, sepPool) + pick(rng, restPool) + genCRTail(rng) + fmt.Sprintf(" #%s_%d", tag, i)
 		lines = append(lines, l)
 		if rng.Intn(5) == 0 {
 			lines = append(lines, "")
@@ -297,7 +322,7 @@ func genMarked(rng *rand.Rand, tag string) string {
 func genPipeline(rng *rand.Rand) input {
 	in := input{Kind: "pipeline", Global: map[string]B{}}
 	var hint []string
-	note := func(s string) string { hint = append(hint, strings.Split(s, "\n")...); return s }
+	note := func(s string) string { hint = append(hint, hintLines(s)...); return s }
 	sid := 0
 	tag := func(p string) string { sid++; return fmt.Sprintf("%s%d", p, sid) }
 	nsvc := 1 + rng.Intn(2)
@@ -387,6 +412,12 @@ func corpus() []input {
 			Services: []svcObj{{Name: "svc1"}},
 			Ingress:  []ingObj{{Name: "ing1", Snippet: bp("\u00a0server evil 10.0.0.1:8080 #A1_0\n \u3000server evil2 10.0.0.2:8080 #A1_1"), Rules: []c1819.Rule{{Host: "h1.local", Path: "/", Service: "svc1", Port: 8080}}}}},
 		{Kind: "updater", Keywords: k("server"), Adds: ing("\u0085server evil 10.0.0.1:8080\n\t\u00a0 server x")},
+		// a lone CR inside a line: a blank for the filter, and the end of the statement for HAProxy;
+		// the written file must keep the line in one piece
+		{Kind: "updater", Keywords: k("use-server"), Adds: ing("  acl is_root path /\ruse-server srv001 if is_root\n  http-request deny if is_root\r"), Written: true},
+		{Kind: "pipeline", Keywords: k("use-server", "server"),
+			Services: []svcObj{{Name: "svc1"}},
+			Ingress:  []ingObj{{Name: "ing1", Snippet: bp("  acl is_root path /\ruse-server srv001 if is_root #A1_0\r\n  option httplog\r  server x 1.1.1.1:80 #A1_1"), Rules: []c1819.Rule{{Host: "h1.local", Path: "/", Service: "svc1", Port: 8080}}}}},
 		// pipeline: service and ingress snippets on one backend, and a TCP service snippet
 		{Kind: "pipeline", Keywords: k("server"),
 			Services: []svcObj{{Name: "svc1"}},
@@ -407,6 +438,7 @@ type globalObs struct {
 type observed struct {
 	Custom   []string   `json:"custom_config"`
 	TCP      []string   `json:"tcp_custom_config,omitempty"`
+	Written  *string    `json:"written_block,omitempty"` // bytes of the snippet block in haproxy.cfg
 	Global   *globalObs `json:"global,omitempty"`
 	GlobalNo *globalObs `json:"-"` // same run without keywords
 	Cfg      string     `json:"-"` // rendered haproxy.cfg (pipeline)
@@ -438,7 +470,11 @@ func runUpdater(in input, scratch string) observed {
 		if pass == 1 {
 			kws = nil
 		}
-		p, err := c1819.NewPipe(c1819.PipeOptions{Dir: scratch, DisableKeywords: kws, Global: globalMap(in)})
+		gm := globalMap(in)
+		// a line of its own right after the snippets of the backend (config-proxy comes next in
+		// the template): the end of the block that is read back from the written file
+		gm["config-proxy"] = "default_app_8080\n  # SNIPEND"
+		p, err := c1819.NewPipe(c1819.PipeOptions{Dir: scratch, DisableKeywords: kws, Global: gm, Render: in.Written && pass == 0})
 		if err != nil {
 			panic(err)
 		}
@@ -465,9 +501,18 @@ func runUpdater(in input, scratch string) observed {
 		if len(in.Adds) == 0 {
 			backend.AddBackendPath(hatypes.CreateHostPathLink("h.local", "/", hatypes.MatchBegin))
 		}
+		// the cookie line is what the template writes right before the snippets
+		backend.Cookie.Name, backend.Cookie.Strategy = "SNIPSTART", "insert"
 		p.Log.Msgs = nil
 		upd.UpdateBackendConfig(backend, mapper)
 		obs.Custom = backend.CustomConfig
+		if in.Written {
+			cfg, err := p.Write()
+			if err != nil {
+				panic(fmt.Sprintf("updater write: %v", err))
+			}
+			obs.Written = snippetBlock(cfg)
+		}
 		// config-tcp-service through the real UpdateTCPPortConfig
 		tdflt := map[string]string{}
 		if in.TCPDflt != nil {
@@ -484,6 +529,31 @@ func runUpdater(in input, scratch string) observed {
 		obs.Warn = p.Log.Msgs
 	}
 	return obs
+}
+
+// snippetBlock returns, byte for byte, what haproxy.cfg holds between the cookie line of
+// backend default_app_8080 and the `# SNIPEND` line (nil when the anchors are not found)
+func snippetBlock(cfg string) *string {
+	i := strings.Index(cfg, "\nbackend default_app_8080\n")
+	if i < 0 {
+		return nil
+	}
+	j := strings.Index(cfg[i:], "\n    cookie SNIPSTART insert")
+	if j < 0 {
+		return nil
+	}
+	start := i + j + 1
+	k := strings.IndexByte(cfg[start:], '\n')
+	if k < 0 {
+		return nil
+	}
+	start += k + 1
+	e := strings.Index(cfg[start:], "    # SNIPEND\n")
+	if e < 0 {
+		return nil
+	}
+	b := cfg[start : start+e]
+	return &b
 }
 
 func runPipeline(in input, scratch string) observed {
@@ -637,6 +707,25 @@ func oracle(in input, obs observed) []fail {
 			}
 		}
 		check("backend", in.Adds, obs.Custom)
+		if obs.Written != nil && len(in.Adds) > 0 {
+			// the WRITTEN bytes, cut in lines as HAProxy reads them (LF ends a line)
+			for _, l := range strings.Split(*obs.Written, "\n") {
+				if strings.TrimSpace(l) == "" {
+					continue
+				}
+				t, w := firstTok(l), haproxyWord(l)
+				if star {
+					fs = append(fs, fail{"backend-star-emitted", fmt.Sprintf("`*` is listed but the written backend section has the snippet line %q", l)})
+					break
+				}
+				if (t != "" && set[t]) || (w != "" && set[w]) {
+					fs = append(fs, fail{"backend-keyword-emitted", fmt.Sprintf("written line %q starts with a disabled keyword (%q / %q)", l, t, w)})
+					break
+				}
+			}
+		} else if in.Written && obs.Written == nil {
+			fs = append(fs, fail{"backend-written-block-lost", "the snippet block of backend default_app_8080 cannot be located in the written haproxy.cfg"})
+		}
 		check("tcp-service", in.TCPAdds, obs.TCP)
 		if len(in.TCPAdds) == 0 {
 			want := ""
@@ -763,8 +852,12 @@ func coqCase(id int, in input, obs observed) string {
 	if in.TCPDflt != nil {
 		tdflt = "(Some " + hx.Str(string(*in.TCPDflt)) + ")"
 	}
-	return fmt.Sprintf("{| cid := %s; ckws := %s; cadds := %s; cdflt := %s; cobs := %s; cglob := %s; ctadds := %s; ctdflt := %s; ctobs := %s |}",
-		hx.N(id), coqStrs(strs(in.Keywords)), hx.List(adds), dflt, coqStrs(obs.Custom), glob, hx.List(tadds), tdflt, coqStrs(obs.TCP))
+	written := "None"
+	if obs.Written != nil {
+		written = "(Some " + hx.Str(*obs.Written) + ")"
+	}
+	return fmt.Sprintf("{| cid := %s; ckws := %s; cadds := %s; cdflt := %s; cobs := %s; cglob := %s; ctadds := %s; ctdflt := %s; ctobs := %s; cwritten := %s |}",
+		hx.N(id), coqStrs(strs(in.Keywords)), hx.List(adds), dflt, coqStrs(obs.Custom), glob, hx.List(tadds), tdflt, coqStrs(obs.TCP), written)
 }
 
 // ---------------------------------------------------------------- main
@@ -848,6 +941,9 @@ func main() {
 		}
 		if in.Kind == "updater" {
 			res.Count(fmt.Sprintf("adds=%d", len(in.Adds)))
+			if obs.Written != nil {
+				res.Count("written_block_read_back")
+			}
 			if len(obs.Custom) > 0 {
 				res.Count("backend_emitted")
 			} else if len(in.Adds) > 0 && in.Adds[0].Value != "" {
